@@ -449,6 +449,9 @@ func (a *Agents) execCB(op *Op) bool {
 	code, state := "forged-code-000", "forgedstate0000000000000000000000"
 	switch cs := op.Args["code"]; {
 	case cs == "forged":
+	case cs == "inject":
+		// a forged code that tries to smuggle further form members into the token request
+		code = "abc&code_verifier=evil-verifier-000000000000000000000000000000000000&redirect_uri=https://evil.test/cb&client_id=evil=1+2"
 	default:
 		ar := authOf(cs)
 		if ar == nil || ar.Code == "" {
